@@ -1146,6 +1146,7 @@ int Interpret::interpPipe() {
 
     bool inComment = false;
     bool inString = false;
+    bool inStringEscape = false;
     bool inQuotedSymbol = false;
 
     bool done  = false;
@@ -1200,7 +1201,14 @@ int Interpret::interpPipe() {
             }
             assert (not inComment and not inQuotedSymbol);
             if (inString) {
-                inString = (c != '\"');
+                // the lexer reads \" and \\ inside a string literal as escaped characters
+                if (inStringEscape) {
+                    inStringEscape = false;
+                } else if (c == '\\') {
+                    inStringEscape = true;
+                } else {
+                    inString = (c != '\"');
+                }
             } else if (c == '\"') {
                 inString = true;
             }
